@@ -2,7 +2,7 @@
 # usage: tools/run_all.sh [quick|thorough] [ids...]   -- runs the checks one after the other and prints one summary line each
 T="${1:-quick}"; shift 2>/dev/null
 IDS="${*:-C01 C02 C03 C04 C05 C06 C07 C08 C09 C10 C11 C12 C13 C14 C15 C16 C17 C18 C19}"
-cd /verif
+cd "$(dirname "$0")/.." || exit 2     # the checkout this script belongs to (so a `vp run` snapshot runs itself, not the working tree)
 for c in $IDS; do
   s=$(date +%s); out=$(./check "$c" --tier "$T" 2>&1); rc=$?; e=$(date +%s)
   echo "$c exit=$rc wall=$((e-s))s :: $(echo "$out" | tail -1 | cut -c1-200)"
